@@ -81,7 +81,15 @@ void UnsatCoreBuilder::mapClausesToTerms() {
         orbit(partitions, partitions, partition);
     }
 
-    allTerms = partitionManager.getPartitions(partitions);
+    // The partition manager also remembers the assertions of popped levels, and a clause over the constants true and
+    // false belongs to every partition: keep only the assertions that are currently on the assertion stack
+    std::unordered_set<PTRef, PTRefHash> currentAssertions;
+    for (PTRef term : solver.getCurrentAssertionsView()) {
+        currentAssertions.insert(term);
+    }
+    for (PTRef term : partitionManager.getPartitions(partitions)) {
+        if (currentAssertions.find(term) != currentAssertions.end()) { allTerms.push(term); }
+    }
 }
 
 void UnsatCoreBuilder::partitionNamedTerms() {
